@@ -27,7 +27,7 @@ INFO = {
                    "zero-free term list of the right polynomial; ==0, ==1 and truthiness agree with the representation "
                    "invariant (zero iff args in {[], [[0]]}) and == between different polynomials is False. NOT decided: "
                    "that compare is a total order for arbitrary monomials (only the representative merges), tosympy.",
-    "decided": ["C17.rational-identities", "C17.monomial-cancel", "C17.polynomial-arith", "C17.operands-intact", "C17.zero-test"],
+    "decided": ["C17.rational-identities", "C17.monomial-cancel", "C17.polynomial-arith", "C17.operands-intact", "C17.sequences", "C17.zero-test"],
     "not_decided": ["loop invariants of Polynomial for arbitrary term lists (sortedness is checked on representatives only)",
                     "tosympy / sympy evaluation", "float coefficient rounding"],
     "assumptions": ["term lists given to the constructor are sorted and duplicate free (the invariant the operators keep)"],
@@ -517,7 +517,7 @@ POLY_PAIRS = [("a", "b"), ("b", "a"), ("2a+3b", "-2a+c"), ("a+ab+b", "-a-ab"), (
 
 
 @rule("C17.polynomial-arith", props=["C17", "C02", "C03", "C04", "C05", "C06", "C07", "C11", "C19"], min_instances=71, mutants=[
-    ("power of a single monomial repeats its variable list (unsorted)", ("polynomial", "    def __pow__(self, power, modulo=None):\n        *_, last = power_supply(self, power)\n        return last\n\n    def __truediv__(self, other):\n        if isinstance(other, self.__class__):\n            return RationalPolynomial(self, other)", "    def __pow__(self, power, modulo=None):\n        if len(self.args) == 1 and power > 0:\n            coeff, *variables = self.args[0]\n            return self.__class__([[coeff ** power, *variables * power]])\n        *_, last = power_supply(self, power)\n        return last\n\n    def __truediv__(self, other):\n        if isinstance(other, self.__class__):\n            return RationalPolynomial(self, other)")),
+    ("power of a single monomial repeats its variable list (unsorted)", ("polynomial", "            return RationalPolynomial([[1]], self ** -power)\n        *_, last = power_supply(self, power)\n        return last", "            return RationalPolynomial([[1]], self ** -power)\n        if len(self.args) == 1 and power > 0:\n            coeff, *variables = self.args[0]\n            return self.__class__([[coeff ** power, *variables * power]])\n        *_, last = power_supply(self, power)\n        return last")),
     ("division by an integer floors the coefficients", ("polynomial", "        # Assume scalar\n        return self * (1 / other)", "        # Assume scalar\n        if isinstance(other, int):\n            return self.__class__([[monomial[0] // other, *monomial[1:]] for monomial in self.args])\n        return self * (1 / other)")),
     ("merged coefficient appended unconditionally", ("polynomial", "                if ea[0] != 0:\n                    res.append(ea)", "                res.append(ea)")),
     ("merge advances only one cursor on equal monomials", ("polynomial", "                ai += 1\n                bi += 1\n        return self.__class__(res)", "                ai += 1\n        return self.__class__(res)")),
@@ -892,3 +892,125 @@ def zero_test(ctx):
             ctx.ok(c, fn)
         else:
             ctx.violation(c, f"({l}) == ({r}) is {res}, but they denote {'the same' if want else 'different'} polynomials", fn)
+
+
+def _ratfun(node):
+    """(numerator, denominator) polynomials of an arithmetic expression tree (names are variables)."""
+    from fractions import Fraction as F
+    if isinstance(node, ast.Expression):
+        return _ratfun(node.body)
+    if isinstance(node, ast.Constant) and isinstance(node.value, (int, float)) and not isinstance(node.value, bool):
+        return Poly.const(F(node.value)), Poly.const(1)
+    if isinstance(node, ast.Name):
+        return Poly.atom(node.id), Poly.const(1)
+    if isinstance(node, ast.UnaryOp) and isinstance(node.op, (ast.USub, ast.UAdd)):
+        n, d = _ratfun(node.operand)
+        return (-n if isinstance(node.op, ast.USub) else n), d
+    if isinstance(node, ast.BinOp):
+        (an, ad), (bn, bd) = _ratfun(node.left), _ratfun(node.right)
+        if isinstance(node.op, ast.Add):
+            return an * bd + bn * ad, ad * bd
+        if isinstance(node.op, ast.Sub):
+            return an * bd - bn * ad, ad * bd
+        if isinstance(node.op, ast.Mult):
+            return an * bn, ad * bd
+        if isinstance(node.op, ast.Div):
+            return an * bd, ad * bn
+    raise ValueError(f"not an arithmetic expression: {ast.dump(node)[:60]}")
+
+
+# --------------------------------------------------------------------------- numbers, both classes, operation sequences
+def _denotes(v):
+    """(numerator, denominator) Poly pair denoted by a result: RationalPolynomial / Polynomial stand-in or a number."""
+    r = as_rational(v)
+    return r
+
+
+SEQUENCE_CELLS = [
+    # label, expression over a, b (RationalPolynomial symbols), pa, pb (Polynomial symbols); expected (numerator, denominator) as text
+    ("a number added to the zero fraction", "(a - a) + 2", "2", "1"),
+    ("the zero fraction added to a number", "2 + (a - a)", "2", "1"),
+    ("a number subtracted from the zero fraction", "(a - a) - 2", "-2", "1"),
+    ("then used again: reciprocal", "1 / ((a - a) + 2)", "1", "2"),
+    ("then used again: power", "((a - a) + 2) ** 2", "4", "1"),
+    ("then used again: product", "((a - a) + 2) * b", "2*b", "1"),
+    ("fraction times polynomial", "b * pa", "a*b", "1"),
+    ("polynomial times fraction", "pa * b", "a*b", "1"),
+    ("difference of equal products of the two classes", "b * pa - b * a", "0", "1"),
+    ("polynomial plus fraction", "pa + b", "a+b", "1"),
+    ("polynomial over fraction", "pa / b", "a", "b"),
+    ("fraction over polynomial", "b / pa", "b", "a"),
+    ("fraction minus polynomial", "(a / b) - pa", "a-a*b", "b"),
+    ("copy of a fraction", "RationalPolynomial(a / b)", "a", "b"),
+    ("zeroth power of a fraction", "(a / b) ** 0", "1", "1"),
+    ("zeroth power of a polynomial", "(pa + pb) ** 0", "1", "1"),
+    ("negative power of a polynomial", "(pa + pb) ** -1", "1", "a+b"),
+    ("negative power of a fraction", "(a / b) ** -2", "b*b", "a*a"),
+]
+
+
+def _poly_of_text(text):
+    n, d = _ratfun(ast.parse(text.replace("^", "**"), mode="eval"))
+    return n, d
+
+
+@rule("C17.sequences", props=["C17", "C11", "C12"], min_instances=18, mutants=[
+    ("a plain number becomes the numerator as it is", ("polynomial", "        elif not isinstance(numer, Polynomial):\n            numer = Polynomial([[numer]])  # A plain number.\n", "")),
+    ("a polynomial operand is wrapped as a coefficient", ("polynomial", "        if not isinstance(other, self.__class__):\n            other = self.__class__(other)\n\n        if self == 0: return self", "        if not isinstance(other, self.__class__):\n            other = self.__class__([[other]])\n\n        if self == 0: return self")),
+    ("the zeroth power asks the addition chain for 0", ("polynomial", "    def __pow__(self, power, modulo=None):\n        if power == 0:\n            return self.__class__([[1]])\n        if power < 0:\n            *_, last", "    def __pow__(self, power, modulo=None):\n        if power < 0:\n            *_, last")),
+    ("the copy constructor reads the denominator of the numerator", ("polynomial", "            numer, denom = numer.numer, numer.denom", "            numer = numer.numer\n            denom = numer.denom")),
+])
+def sequences(ctx):
+    """Operation SEQUENCES over both classes and plain numbers: whatever an operator returns can be used again - as an
+    operand of every other operator, with either class or a number on either side - and still denotes the right rational
+    function, in a form on which the zero tests are exact (an int standing where a Polynomial belongs, a Polynomial
+    wrapped as a coefficient, are wrong even when the printed value looks right)."""
+    repo = ctx.repo
+    fn = ctx.func(f"{RP}.__init__")
+    for label, text, wn, wd in SEQUENCE_CELLS:
+        c = f"{RP}#sequence:{label}"
+        it = new_interp(repo)
+        env_vals = {"a": mk(it, "RationalPolynomial", [[1, "a"]]), "b": mk(it, "RationalPolynomial", [[1, "b"]]),
+                    "pa": mk(it, "Polynomial", [[1, "a"]]), "pb": mk(it, "Polynomial", [[1, "b"]])}
+        from ..absint import Env
+        try:
+            v = it.eval(ast.parse(text, mode="eval").body, Env(dict(env_vals), {}, "polynomial", it))
+        except NoValue as exc:
+            ctx.unknown(c, str(exc), fn)
+            continue
+        except Raised as r:
+            ctx.violation(c, f"`{text}` raises {r.name}: the result of one operator cannot be used as the operand of the next", fn)
+            continue
+        shape = None
+        if isinstance(v, Obj) and v.kind == "RationalPolynomial":
+            n_, d_ = v.attrs.get("numer"), v.attrs.get("denom")
+            if not (isinstance(n_, Obj) and n_.kind == "Polynomial") or not (isinstance(d_, Obj) and d_.kind == "Polynomial"):
+                shape = f"numerator {n_!r} / denominator {d_!r} are not both Polynomials"
+            else:
+                for part in (n_, d_):
+                    if any(isinstance(f, Obj) for m in (part.attrs.get("args") or []) if isinstance(m, (list, tuple)) for f in m):
+                        shape = "a Polynomial is stored as the coefficient of a monomial"
+        if shape or malformed_terms(v):
+            ctx.violation(c, f"`{text}` returns a malformed fraction ({shape or malformed_terms(v)}): the next operator, str() or tosympy() fails on "
+                             f"it, or the zero tests are wrong", fn)
+            continue
+        r = _denotes(v)
+        if r is None:
+            ctx.unknown(c, f"`{text}` evaluates to {v!r}", fn)
+            continue
+        gn, gd = r
+        en, ed = _poly_of_text(wn), _poly_of_text(wd)
+        want_n, want_d = en[0] * ed[1], en[1] * ed[0]
+        if (gn * want_d - want_n * gd).is_zero() and not gd.is_zero():
+            # the zero tests on the result must be exact
+            zero = (gn.is_zero())
+            try:
+                truth = it.truth(v)
+            except NoValue:
+                truth = not zero
+            if truth == (not zero):
+                ctx.ok(c, fn, value=f"({gn!r}) / ({gd!r})")
+            else:
+                ctx.violation(c, f"`{text}` denotes {'zero' if zero else 'a non-zero function'} but its truth value is {truth}", fn)
+        else:
+            ctx.violation(c, f"`{text}` returns ({gn!r}) / ({gd!r}), expected ({want_n!r}) / ({want_d!r})", fn)
